@@ -383,6 +383,8 @@ impl Run {
                                 cases: per as u32,
                                 failure_persistence: None,
                                 max_shrink_iters: 20_000,
+                                // shrinking is best effort: a deadline bounds only how small the reported case gets, never the verdict
+                                max_shrink_time: 60_000,
                                 max_global_rejects: 1_000_000,
                                 ..Config::default()
                             };
